@@ -25,7 +25,6 @@ CLASS_FINDING = {
     'toml-inline-section': 'C04-pyproject-dotted-or-inline-sections',
     'yaml-flow': 'C04-yaml-flow-collections',
     'gha-nonregistry': 'C04-gha-docker-and-local-refs',
-    'gomod-block-close-comment': 'C04-gomod-block-close-with-comment',
 }
 
 
@@ -110,9 +109,6 @@ def set_oracle(rep, doc, pkgs):
                         ok = True
             except Exception:
                 pass
-        if not ok and 'gomod-block-close-comment' in doc_classes:
-            used.add('gomod-block-close-comment')
-            ok = True
         if not ok:
             unexplained.append(('checked but not declared', t))
     for c in used:
